@@ -144,7 +144,7 @@ def sc_purity(d, sizes, w=None):
     def update(qs, ch, idx):
         _, ut = qs.query(ch.copy(), clf, return_utilities=True)
         qs.update(ch.copy(), d.arr(idx, dtype=int), budget_manager_param_dict={"utilities": ut})
-    res = scenario(Env, lambda: _make(d, B, seed, w), query, update, chunks)
+    res = scenario(Env, lambda: _make(d, B, seed, w), query, update, chunks, update_only_twin=False)   # (its update needs the utilities of a query)
     d.witness(any(len(r[0]) for r in res), "some_granted")
 
 
